@@ -301,7 +301,8 @@ class ParallelTempering:
         t2 = time()
 
         # number of cycles chosen to give a print-out roughly every 2 seconds
-        N = max(1, int(2.0 / (t2 - t1)))
+        # (a cycle faster than the resolution of the clock is counted as 10 ms)
+        N = max(1, int(2.0 / max(t2 - t1, 1e-2)))
 
         while time() < end_time:
             for i in range(N):
